@@ -716,8 +716,51 @@ func randomRule(r *rand.Rand, id int) rawRule {
 	default:
 		v := pick(r, variants)
 		rr.Dacts, rr.Status = v.dacts, v.status
+		if r.Intn(3) == 0 {
+			rr.Status = pick(r, statusBoundary)
+		}
 	}
 	return rr
+}
+
+// statuses around every edge of the redirect whitelist {301,302,303,307}, the deny default (0 / absent
+// -> 403) and values far outside; -1 = no status action
+var statusBoundary = []int{-1, 0, 200, 300, 301, 302, 303, 304, 305, 306, 307, 308, 401, 403, 503, 999}
+
+// statusCfg: one rule of phase `phase` whose effective disruptive action is `kind` (deny / drop / redirect)
+// and whose effective status is `status`, placed in one of three ways:
+//   0: both on the rule                      "status:N,<kind>"
+//   1: both inherited through block          SecDefaultAction "phase:p,<kind>,status:N" + rule "block"
+//   2: the action on the rule, the status inherited from SecDefaultAction "phase:p,pass,status:N"
+func statusCfg(engine string, phase int, kind string, status int, placement int, id int) wafCfg {
+	w := wafCfg{Engine: engine, ReqAcc: false, ReqLim: 8, ReqAct: "Reject", RespAcc: false, RespLim: 8, RespAct: "ProcessPartial"}
+	d := act{K: kind}
+	if kind == "redirect" {
+		d.Arg = fmt.Sprintf("http://s.example/%d", id)
+	}
+	var st []act
+	if status >= 0 {
+		st = []act{{"status", strconv.Itoa(status)}}
+	}
+	var acts []act
+	switch placement {
+	case 0:
+		if id%2 == 0 {
+			acts = append(append(acts, st...), d)
+		} else {
+			acts = append(append(acts, d), st...)
+		}
+	case 1:
+		w.Defaults = []defAct{{Phase: phase, Acts: append([]act{d}, st...), Status: -1}}
+		acts = []act{{K: "block"}}
+	case 2:
+		w.Defaults = []defAct{{Phase: phase, Acts: append([]act{{K: "pass"}}, st...), Status: -1}}
+		acts = []act{d}
+	}
+	w.Rules = append(w.Rules, marker(7, phase))
+	w.Rules = append(w.Rules, rawRule{ID: id, Phase: phase, Cond: "true", Acts: acts, Status: -1})
+	w.Rules = append(w.Rules, marker(9, phase), marker(50, 5))
+	return w
 }
 
 var inertActs = []act{{K: "log"}, {K: "nolog"}, {K: "msg", Arg: "m"}, {K: "tag", Arg: "t"}, {K: "setvar", Arg: "tx.z=1"}, {K: "auditlog"}}
@@ -729,7 +772,7 @@ func separators(r *rand.Rand, n int) []act {
 	var l []act
 	for i := 0; i < n; i++ {
 		if r.Intn(4) == 0 {
-			l = append(l, act{"status", pick(r, []string{"301", "307", "401", "503", "200"})})
+			l = append(l, act{"status", strconv.Itoa(pick(r, statusBoundary[1:]))})
 		} else {
 			l = append(l, pick(r, inertActs))
 		}
@@ -839,6 +882,9 @@ func randomCfg(r *rand.Rand) wafCfg {
 	for i := 0; i < nd; i++ {
 		d := pick(r, defaultVariants)
 		d.Phase = perm[i] + 1
+		if r.Intn(3) == 0 {
+			d.Status = pick(r, statusBoundary)
+		}
 		w.Defaults = append(w.Defaults, d)
 	}
 	n := 4 + r.Intn(7)
@@ -1321,6 +1367,35 @@ func Run(cfg vh.Config) (*vh.Result, error) {
 							if err := add(w, perturbed(rng, syms), "ctl"); err != nil {
 								return nil, err
 							}
+						}
+					}
+				}
+			}
+		}
+		// (2a) effective status of every interrupting action at every edge of the whitelists, on the rule
+		//      and inherited from SecDefaultAction (with block / with the rule's own action)
+		{
+			seqs := [][]call{
+				{{K: "prh"}, {K: "prb"}, {K: "presph"}, {K: "prespb"}, {K: "log"}},
+				{{K: "log"}, {K: "prh"}},
+			}
+			n := 0
+			for ki, kind := range []string{"redirect", "deny", "drop"} {
+				for si, status := range statusBoundary {
+					for placement := 0; placement < 3; placement++ {
+						n++
+						phase := 1 + (ki+si+placement)%5
+						eng := "On"
+						if (ki+si+placement)%4 == 3 {
+							eng = "DetectionOnly" // the would-be interruption carries the same status
+						}
+						w := statusCfg(eng, phase, kind, status, placement, 100+n)
+						sq := seqs[0]
+						if phase == 5 && n%2 == 0 {
+							sq = seqs[1]
+						}
+						if err := add(w, sq, "status_boundary"); err != nil {
+							return nil, err
 						}
 					}
 				}
